@@ -793,9 +793,9 @@ package corerad
 //@   ghost local sd Int
 //@   opt capture CAP
 //@   requires CAP [C08]: a != nil && advOK(a) && ifiCfgOK(a.cfg) && a.terminate != nil && a.minDelayBetweenRAs > 0 && a.minDelayBetweenRAs <= secs(3600) && (!a.cfg.UnicastOnly ==> validIntervals(a.cfg.MinInterval, a.cfg.MaxInterval))
-//@   requires P1: ctx != nil && dctx != nil && dctx.Conn != nil
+//@   requires P1: ctx != nil && dctx != nil && dctx.Conn != nil && dctx.Interface != nil
 //@   assigns everything
-//@   loop 1 invariant L1 [C08]: 0 <= rangeindex + 1 && rangeindex + 1 <= len(a.cfg.Plugins) && a != nil && advOK(a) && ifiCfgOK(a.cfg) && a.terminate != nil && a.minDelayBetweenRAs > 0 && a.minDelayBetweenRAs <= secs(3600) && (!a.cfg.UnicastOnly ==> validIntervals(a.cfg.MinInterval, a.cfg.MaxInterval)) && ctx != nil && dctx != nil && dctx.Conn != nil && !ghost.advDone && ghost.sd == 0
+//@   loop 1 invariant L1 [C08]: 0 <= rangeindex + 1 && rangeindex + 1 <= len(a.cfg.Plugins) && a != nil && advOK(a) && ifiCfgOK(a.cfg) && a.terminate != nil && a.minDelayBetweenRAs > 0 && a.minDelayBetweenRAs <= secs(3600) && (!a.cfg.UnicastOnly ==> validIntervals(a.cfg.MinInterval, a.cfg.MaxInterval)) && ctx != nil && dctx != nil && dctx.Conn != nil && dctx.Interface != nil && !ghost.advDone && ghost.sd == 0
 //@   at call advertise(aa, actx, aconn) (aerr): ghost.advDone = true ; ghost.advErr = aerr
 //@   at call shutdown(sa, sconn): assert S1 [C08]: ghost.advDone && errIs(ghost.advErr, global("context.Canceled")) && ghost.sd == 0 ; ghost.sd = ghost.sd + 1
 //@   ensures E1 [C08]: ghost.advDone && errIs(ghost.advErr, global("context.Canceled")) ==> result == nil && ghost.sd == 1
